@@ -182,6 +182,9 @@ def make_dir(root, names):
 
 def leg_a(ctx, root, jobs, tag):
     """jobs: list of (tmpl, ifsname, ifs, opts, items). Runs harness + model, classifies."""
+    # the model's directory is one level deep: where the value can act as a glob pattern it must not hold '/'
+    jobs = [(t, n, i, o, items if t[4] == "q" else [[s.replace("/", "") for s in it] for it in items])
+            for (t, n, i, o, items) in jobs]
     lines = [make_line(root, DIRNAMES, ifs, o, t, items) for (t, _, ifs, o, items) in jobs]
     okh, bouts, errs = lib.run_vh_parallel(BIN, lines, workers=WORKERS)
     if not okh:
@@ -468,9 +471,12 @@ def _run(ctx, rng, root):
     tagged = [("exh2", len(jobs))]
     for ti, t in enumerate(TEMPLATES):
         if not ctx.quick:
-            for (n, i, o) in (cmb_q if t[4] == "q" else cmb):
-                for ch in lib.chunked(mid, CH):
-                    jobs.append((t, n, i, o, [[v] for v in ch]))
+            # thorough: every length-3 value through every template under every IFS setting (options rotating)
+            for ii, (n, i) in enumerate(IFSES):
+                for rep in range(1 if t[4] == "q" else 2):
+                    o = OPTSETS[(ti + ii + 3 * rep) % len(OPTSETS)]
+                    for ch in lib.chunked(mid, CH):
+                        jobs.append((t, n, i, o, [[v] for v in ch]))
         else:
             # every length-3 value through the core templates, and through each other template for a third of them
             sub = mid if t[0] in core else mid[ti % 3::3]
